@@ -179,16 +179,18 @@ pub struct Profile {
     pub flat_maps: bool,
     /// add an axis with minimum == default == maximum (kept in the source, not part of fvar)
     pub point_axis: bool,
+    /// glyph names that stress file-name mapping: case variants, reserved characters, device names
+    pub weird_names: bool,
 }
 
 impl Profile {
     pub fn outlines() -> Profile {
         Profile { min_axes: 1, max_axes: 3, max_glyphs: 8, min_glyphs: 2, outlines: true, cubic: true, components: 4, transforms: true, mixed: true, sparse: 3,
-            order_variety: false, non_export: true, metrics_class_a: true, vertical: true, half_coords: true, maps: true, awkward_axes: false, multi_codepoints: false, ps_names: false, anchors: false, kerning: false, instances: false, flat_maps: false, point_axis: false }
+            order_variety: false, non_export: true, metrics_class_a: true, vertical: true, half_coords: true, maps: true, awkward_axes: false, multi_codepoints: false, ps_names: false, anchors: false, kerning: false, instances: false, flat_maps: false, point_axis: false, weird_names: false }
     }
     pub fn glyphset() -> Profile {
         Profile { min_axes: 0, max_axes: 1, max_glyphs: 14, min_glyphs: 1, outlines: false, cubic: false, components: 4, transforms: false, mixed: true, sparse: 0,
-            order_variety: true, non_export: true, metrics_class_a: false, vertical: false, half_coords: false, maps: false, awkward_axes: false, multi_codepoints: true, ps_names: true, anchors: false, kerning: false, instances: false, flat_maps: false, point_axis: false }
+            order_variety: true, non_export: true, metrics_class_a: false, vertical: false, half_coords: false, maps: false, awkward_axes: false, multi_codepoints: true, ps_names: true, anchors: false, kerning: false, instances: false, flat_maps: false, point_axis: false, weird_names: false }
     }
 }
 
@@ -343,12 +345,14 @@ impl SynthFont {
 
         // ---- glyphs
         let mut pool: Vec<usize> = (0..NAME_POOL.len()).collect();
+        let mut weird_pool: Vec<&str> = vec!["a\"b", "a%22b", "con", "CON", "aux", "a*b", "a?b", "a:b", "A_", "a_", "nul.alt", "Aa", "aA", "AA", "aa", "x^1", "x%5E1", "e\u{301}", "\u{e9}"];
         let mut glyphs: Vec<Glyph> = vec![];
         let mut gh = g.fork(8);
         let notdef_at = if explicit_notdef { Some(gh.below(n_glyphs.max(1))) } else { None };
         for gi in 0..n_glyphs {
             let mut gg = g.fork(110);
-            let (name, cp) = if Some(gi) == notdef_at { (".notdef".to_string(), 0u32) } else {
+            let (name, cp) = if Some(gi) == notdef_at { (".notdef".to_string(), 0u32) } else if p.weird_names && !weird_pool.is_empty() && gg.clone().chance(1, 3) {
+                gg.word(); let k = gg.below(weird_pool.len()); (weird_pool.remove(k).to_string(), 0u32) } else {
                 let k = gg.below(pool.len()); let idx = pool.remove(k); (NAME_POOL[idx].0.to_string(), NAME_POOL[idx].1) };
             if Some(gi) == notdef_at { gg.word(); }
             let mut codepoints = if cp != 0 { vec![cp] } else { vec![] };
